@@ -206,6 +206,12 @@ def nonjson_sequence_oracle(ck):
         "complex": ([complex(i, 1) for i in range(9)], complex(0, -7)),
         "bytes": ([bytes([65 + i]) for i in range(9)], b"zz"),
         "mixed-with-date": ([1.0, 2.0, 3.0, datetime.date(2024, 5, 5), 4.0, 5.0, 6.0, 7.0], -1.0),
+        # non-finite floats (YAML .inf / .nan): legal values of an explicit list
+        "with-inf": ([1.0, 2.0, float("inf"), 3.0, 4.0, 5.0, 6.0, 7.0], -1.0),
+        "with-nan": ([float("nan"), 1.0, 2.0], 9.0),
+        "with-negative-inf": ([1.0, float("-inf"), 2.0], float("inf")),
+        # numbers that differ far below the printed precision of a rounded signature
+        "close-floats": ([0.1, 0.2, 0.30000000000000004, 1e-15, 2.0], 0.3),
     }
     for fam, (vals, other) in families.items():
         for length in (len(vals), 3):
